@@ -141,4 +141,5 @@ package client
 // first segment of the next envelope is recognised by targetLength == 0 and starts from no data).
 //@ func (*payloadAccumulator).reset
 //@   prop C15
+//@   assigns a.targetLength, a.accumulatedData
 //@   ensures empty: a.targetLength == 0 && len(a.accumulatedData) == 0
